@@ -201,7 +201,7 @@ var reservedStemTypesOpen = []string{"Error", "Any", "Nil", "Append", "Panic", "
 
 var ifaceNamePool = []string{"Store", "Service", "Repo", "Doer", "Handler", "Backend", "Api", "Thing", "Reader", "Manager", "Cache", "Queue",
 	"Worker", "Finder", "Sink"}
-var methodNamePool = []string{"Ärger", "Get", "Put", "Do", "Run", "Close", "Find", "Create", "Delete", "Update", "List", "Send", "Recv", "Handle",
+var methodNamePool = []string{"ResetMissedCalls", "ResetStatsCalls", "Ärger", "Get", "Put", "Do", "Run", "Close", "Find", "Create", "Delete", "Update", "List", "Send", "Recv", "Handle",
 	"Open", "Process", "Apply", "Check", "Load", "Save", "Visit", "Exec", "One", "Two", "Three"}
 var tparamNames = []string{"T", "K", "V", "E", "S", "U", "TT", "Elem", "TKey", "T1", "T2"}
 var tparamNamesOdd = []string{"t", "Id", "id", "elem", "k", "tKey", "Url"}
@@ -1342,6 +1342,24 @@ func (g *G) genIface(cfgSkipEnsure bool) *Iface {
 	}
 	if len(it.AllMeths) == 0 {
 		g.label("iface:empty")
+	}
+	// fluent / self-referential interfaces: a method returns (or takes) the interface itself
+	if len(it.Methods) > 0 && g.Chance(12) {
+		self := &Ty{K: KNamed, Name: it.Name, Pkg: g.src, Cmp: true}
+		for _, tp := range it.TParams {
+			self.Args = append(self.Args, &Ty{K: KTParam, Name: tp.Name})
+		}
+		m := &it.Methods[g.Int(0, len(it.Methods)-1)]
+		if g.Chance(75) {
+			if len(m.Sig.Results) == 0 {
+				m.Sig.Results = []Param{{T: self}}
+			} else {
+				m.Sig.Results[0].T = self
+			}
+		} else if len(m.Sig.Params) > 0 && !m.Sig.Variadic {
+			m.Sig.Params[0].T = self
+		}
+		g.label("iface:self-referential")
 	}
 	return it
 }
